@@ -21,19 +21,25 @@ discharges `hsolo`, `hdisj` and `hpar` from the STATIC hypotheses of `C05_driver
 * `C06_par_equals_seq_static`: parallel disk = sequential disk outside `.pc`, same number of applied patches, assuming
   neither run succeeded (both do, by `C05_driver_succeeds` and `C06_par_succeeds`).
 
-The one hypothesis beyond those of `C05_driver_succeeds`, and a FINDING (`rej-dir-order`):
+The one hypothesis beyond those of `C05_driver_succeeds`, which came from a FINDING (`rej-dir-order`, repaired since):
 
 * `RejPrefixFree w.fs cfg range` (`RQ/Lemmas/ParSucceeds.lean`, decidable, static): no path `<name>.rej`, `<name>` a name a
-  patch of the range mentions, is a strict prefix of another such path.  It is NEEDED (`Needed.rejOrder`, decided):
-  `f` = `x\n`, one patch with the file patches `f` (hunk fails) and `f.rej/y` (the file does not exist, hunk fails), in
-  this order.  The specification and the sequential driver write the reject files in series order — `f.rej/y.rej` first
-  (skipped: the directory `f.rej` does not exist), then `f.rej` — and succeed (`ioError = false`, outcome `notAll`).  The
-  main thread of the parallel driver writes them worker by worker: `f.rej` (worker 0) first, then `f.rej/y.rej` (worker
-  1), whose unlink now fails with "not a directory" — `save_rej_files` only tolerates "not found" — so the parallel
-  driver ends with an error where the sequential one does not, all hypotheses of `C05_driver_succeeds` being true.  With
-  the two file patches in the other order it is the reverse (`Needed.rejOrder_converse`): the sequential driver and the
-  specification fail, the parallel driver succeeds.  Same root as the known finding `dup-entry-rej-overwrite` (order of
-  the reject files per path): here the order matters across DIFFERENT paths, one a directory of the other.
+  patch of the range mentions, is a strict prefix of another such path.  It WAS NEEDED before the repair of
+  `rej-dir-order`: `f` = `x\n`, one patch with the file patches `f` (hunk fails) and `f.rej/y` (the file does not exist,
+  hunk fails), in this order.  The specification and the sequential driver write the reject files in series order —
+  `f.rej/y.rej` first (skipped: the directory `f.rej` does not exist), then `f.rej`.  The main thread of the parallel
+  driver writes them worker by worker: `f.rej` (worker 0) first, then `f.rej/y.rej` (worker 1), whose unlink then fails
+  with "not a directory" (`ENOTDIR`).  `save_rej_files` used to tolerate "not found" only, so the parallel driver ended
+  with an error where the sequential one did not, all hypotheses of `C05_driver_succeeds` being true; with the two file
+  patches in the other order it was the reverse (the sequential driver and the specification failed, the parallel driver
+  succeeded).  Since the repair `save_rej_files` treats `ENOTDIR` like "not found" — the unlink's error is tolerated and
+  the reject is bypassed like one whose directory does not exist (`Push.World.opRej`, `Spec.putRejects`) — and on both
+  workspaces the specification, the sequential driver and the parallel driver all end "not all applied" (exit status 1)
+  with `f.rej` written and `f.rej/y.rej` bypassed: `Fixed.rejOrder`, `Fixed.rejOrder_converse` (decided).
+  The hypothesis is KEPT in the statements below although the repaired driver no longer needs it for these workspaces:
+  the proof of `C06_par_succeeds` (`ParSucceeds.rejWorkers_succeeds`: "each reject could be written first, and writing
+  one does not put a regular file on the way to another") uses it to reorder the reject files; removing it would need a
+  different argument (every order succeeds because a reject that finds a regular file on its way is bypassed).
 
 NOT needed:
 
@@ -201,11 +207,13 @@ theorem value : ∃ w', parApplyPatches w0 cfgA range0 2 schedA schedS = some (.
 
 end SpecEx
 
-/-! ## `RejPrefixFree` is needed (finding `rej-dir-order`)
+/-! ## The finding `rej-dir-order`, repaired (why `RejPrefixFree` was needed)
 
 The working directory: `f` = `x\n`, `series` = `p1\n`, `patches/p1` = two file patches: `f` (`-y +z`: the hunk fails) and
-`f.rej/y` (`-y +z`: the file does not exist, the hunk fails).  All hypotheses of `C05_driver_succeeds` are decided. -/
-namespace Needed
+`f.rej/y` (`-y +z`: the file does not exist, the hunk fails).  All hypotheses of `C05_driver_succeeds` are decided; before
+the repair (`save_rej_files` did not tolerate `ENOTDIR`) the parallel driver failed on `fsR` and the sequential driver
+and the specification failed on `fsR'`. -/
+namespace Fixed
 open RQ.Compose.FailExample
 
 /-- `--- a/f.rej/y\n+++ b/f.rej/y\n@@ -1 +1 @@\n-y\n+z\n` -/
@@ -229,33 +237,45 @@ def sS : List Nat := [0, 0, 0, 0, 0, 0, 1, 1]
 /-- for the other order (the workers have swapped roles) -/
 def sS' : List Nat := [1, 1, 1, 1, 1, 1, 0, 0]
 
-/-- **`RejPrefixFree` is needed**: every hypothesis of `C05_driver_succeeds` holds, the specification reports no output
-failure, the sequential driver ends with "not all applied" — and the parallel driver (two threads) ends with an error:
-the main thread writes worker 0's `f.rej` before worker 1's `f.rej/y.rej` -/
+/-- `f.rej/y.rej` -/
+def kFrejY : Key := [[102, 46, 114, 101, 106], [121, 46, 114, 101, 106]]
+
+/-- `f.rej` is a regular file and nothing is at `f.rej/y.rej` -/
+def rejsAsRepaired (fs : FS) : Bool := (fileAt fs kFrej).isSome && (fs.lookup kFrejY).isNone
+
+/-- **the repaired behaviour on the witness of `rej-dir-order`**: every hypothesis of `C05_driver_succeeds` holds and
+`RejPrefixFree` does not; the specification reports no output failure and exit status 1, the sequential driver ends "not
+all applied", and so does the parallel driver (two threads) under the schedule under which it used to fail: the main
+thread writes worker 0's `f.rej` before worker 1's `f.rej/y.rej`, whose unlink and creation meet `ENOTDIR` and are
+bypassed.  All three leave `f.rej` written and no `f.rej/y.rej`. -/
 theorem rejOrder :
     let w : World := { fs := fsR }
     w.faultAt = none ∧ plan cfgA w.fs = .apply [e1] ∧ Tight w.fs ∧ Compose.Clean cfgA w.fs [e1] ∧
     PrefixFree w.fs cfgA [e1] ∧ (∀ t' ∈ reached w.fs cfgA [e1] [], TreeTerminated t') ∧ ¬ Refused cfgA w.fs [e1] ∧
-    (Spec.pushSpec cfgA w.fs).ioError = false ∧ (Push.push cfgA w).1 = .notAll ∧
     ¬ RejPrefixFree w.fs cfgA [e1] ∧
+    (Spec.pushSpec cfgA w.fs).ioError = false ∧ (Spec.pushSpec cfgA w.fs).exit = 1 ∧
+    rejsAsRepaired (Spec.pushSpec cfgA w.fs).fs = true ∧
+    (Push.push cfgA w).1 = .notAll ∧ rejsAsRepaired (Push.push cfgA w).2.fs = true ∧
     (match parApplyPatches w cfgA [e1] 2 sA sS with
-      | some (.error _) => true
+      | some (.ok (w', k)) => k == 0 && rejsAsRepaired w'.fs
       | _ => false) = true :=
   ⟨rfl, Refine2.Example.plan_of_isApply (by decide), tightB_sound (by decide), by decide, by decide, by decide,
-    Refine2.notRefused_of_ranOk (by decide), by decide, by decide, by decide, by decide⟩
+    Refine2.notRefused_of_ranOk (by decide), by decide, by decide, by decide, by decide, by decide, by decide,
+    by decide⟩
 
-/-- the other order of the two file patches: the specification reports an output failure and the sequential driver
-ends with an error (`f.rej` is written first, `f.rej/y.rej` then finds a regular file on its way) — the parallel driver
-succeeds (worker 0 has `f.rej/y` now) -/
+/-- the other order of the two file patches (where the specification and the sequential driver used to fail: `f.rej` is
+written first, `f.rej/y.rej` then finds a regular file on its way): the same repaired behaviour on all three sides -/
 theorem rejOrder_converse :
     let w : World := { fs := fsR' }
-    (Spec.pushSpec cfgA w.fs).ioError = true ∧ (Push.push cfgA w).1 = .error ∧
+    (Spec.pushSpec cfgA w.fs).ioError = false ∧ (Spec.pushSpec cfgA w.fs).exit = 1 ∧
+    rejsAsRepaired (Spec.pushSpec cfgA w.fs).fs = true ∧
+    (Push.push cfgA w).1 = .notAll ∧ rejsAsRepaired (Push.push cfgA w).2.fs = true ∧
     (match parApplyPatches w cfgA [e1] 2 sA sS' with
-      | some (.ok (_, k)) => k == 0
+      | some (.ok (w', k)) => k == 0 && rejsAsRepaired w'.fs
       | _ => false) = true :=
-  ⟨by decide, by decide, by decide⟩
+  ⟨by decide, by decide, by decide, by decide, by decide, by decide⟩
 
-end Needed
+end Fixed
 
 #print axioms C06_workers_disjoint
 #print axioms C06_worker_saves_alone
@@ -266,7 +286,7 @@ end Needed
 #print axioms SpecEx.succeeds
 #print axioms SpecEx.equals_seq
 #print axioms SpecEx.value
-#print axioms Needed.rejOrder
-#print axioms Needed.rejOrder_converse
+#print axioms Fixed.rejOrder
+#print axioms Fixed.rejOrder_converse
 
 end RQ.Par
